@@ -55,6 +55,12 @@ def who_writes_field(ctx, qfield):
     return out
 
 
+# a front end that starts a new stream on an existing decoder must go through init() (-> reset) unconditionally: the
+# streaming constructors (C11.dom.streaming), reported as C07.entry
+INCLUDES = [
+    ("c11", "C07.entry", {"rules": ("C11.dom.streaming",)}, 3),
+]
+
 def run(ctx):
     R = "C07.cover.reset"
     done = set()
